@@ -10,14 +10,17 @@ use regex::Captures;
 use regex::Error;
 use regex::Regex;
 
+/// One pattern of a .hgignore file: it is matched against the path relative to the
+/// repository root, as Mercurial does.
 #[derive(Clone, Debug)]
 pub struct HgignoreFilter {
     pub regex: Regex,
+    root: String,
 }
 
 impl HgignoreFilter {
-    fn new(regex: Regex) -> HgignoreFilter {
-        HgignoreFilter { regex }
+    fn new(regex: Regex, root: &Path) -> HgignoreFilter {
+        HgignoreFilter { regex, root: root_text(root) }
     }
 }
 
@@ -59,9 +62,20 @@ fn update_hgignore_filters(hgignore_filters: &mut Vec<HgignoreFilter>, path: &Pa
 }
 
 pub fn matches_hgignore_filter(hgignore_filters: &Vec<HgignoreFilter>, file_name: &str) -> bool {
+    #[cfg(windows)]
+    let file_name = &file_name.replace("\\", "/");
+
     // a pattern that matches a directory hides everything below it
     for hgignore_filter in hgignore_filters {
-        let mut candidate = file_name;
+        let relative = match file_name
+            .strip_prefix(hgignore_filter.root.as_str())
+            .and_then(|rest| rest.strip_prefix('/'))
+        {
+            Some(relative) if !relative.is_empty() => relative,
+            _ => continue,
+        };
+
+        let mut candidate = relative;
         loop {
             if hgignore_filter.regex.is_match(candidate) {
                 return true;
@@ -77,20 +91,32 @@ pub fn matches_hgignore_filter(hgignore_filters: &Vec<HgignoreFilter>, file_name
     false
 }
 
+#[derive(Clone, Copy)]
 enum Syntax {
     Regexp,
     Glob,
+    RootGlob,
 }
 
 impl Syntax {
     fn from(s: &str) -> Result<Syntax, String> {
-        if s == "regexp" {
-            return Ok(Syntax::Regexp);
-        } else if s == "glob" {
-            return Ok(Syntax::Glob);
-        } else {
-            return Err("Error parsing syntax directive".to_string());
+        match s {
+            "regexp" | "re" | "relre" => Ok(Syntax::Regexp),
+            "glob" | "relglob" => Ok(Syntax::Glob),
+            "rootglob" => Ok(Syntax::RootGlob),
+            _ => Err("Error parsing syntax directive".to_string()),
         }
+    }
+
+    /// A line may name its own syntax (`glob:*.o`), whatever the section says.
+    fn of_line<'a>(line: &'a str, section: Syntax) -> (Syntax, &'a str) {
+        for prefix in ["regexp", "re", "relre", "glob", "relglob", "rootglob"] {
+            if let Some(pattern) = line.strip_prefix(prefix).and_then(|rest| rest.strip_prefix(':')) {
+                return (Syntax::from(prefix).unwrap_or(section), pattern);
+            }
+        }
+
+        (section, line)
     }
 }
 
@@ -126,9 +152,15 @@ fn parse_hgignore(
                             if line.starts_with("syntax:") {
                                 let line = line.replace("syntax:", "");
                                 let syntax_directive = line.trim();
+                                // an unknown name is reported, the other lines stay in force
                                 match Syntax::from(syntax_directive) {
                                     Ok(parsed_syntax) => syntax = parsed_syntax,
-                                    Err(parse_err) => err = parse_err,
+                                    Err(parse_err) => eprintln!(
+                                        "{}: {}: {}",
+                                        file_path.to_string_lossy(),
+                                        parse_err,
+                                        syntax_directive
+                                    ),
                                 }
                             } else if line.starts_with("subinclude:") {
                                 let include = line.replace("subinclude:", "");
@@ -160,7 +192,8 @@ fn parse_hgignore(
                                 if line.is_empty() {
                                     return;
                                 }
-                                let pattern = convert_hgignore_pattern(&line, dir_path, &syntax);
+                                let (line_syntax, line) = Syntax::of_line(&line, syntax);
+                                let pattern = convert_hgignore_pattern(line, dir_path, &line_syntax);
                                 match pattern {
                                     Ok(pattern) => result.push(pattern),
                                     Err(parse_err) => err = parse_err,
@@ -187,12 +220,16 @@ fn convert_hgignore_pattern(
     syntax: &Syntax,
 ) -> Result<HgignoreFilter, String> {
     match syntax {
-        Syntax::Glob => match convert_hgignore_glob(pattern, file_path) {
-            Ok(regex) => Ok(HgignoreFilter::new(regex)),
+        Syntax::Glob => match convert_hgignore_glob(pattern, false) {
+            Ok(regex) => Ok(HgignoreFilter::new(regex, file_path)),
             _ => Err("Error creating regex while parsing .hgignore glob: ".to_string() + pattern),
         },
-        Syntax::Regexp => match convert_hgignore_regexp(pattern, file_path) {
-            Ok(regex) => Ok(HgignoreFilter::new(regex)),
+        Syntax::RootGlob => match convert_hgignore_glob(pattern, true) {
+            Ok(regex) => Ok(HgignoreFilter::new(regex, file_path)),
+            _ => Err("Error creating regex while parsing .hgignore glob: ".to_string() + pattern),
+        },
+        Syntax::Regexp => match convert_hgignore_regexp(pattern) {
+            Ok(regex) => Ok(HgignoreFilter::new(regex, file_path)),
             _ => Err("Error creating regex while parsing .hgignore regexp: ".to_string() + pattern),
         },
     }
@@ -202,19 +239,20 @@ static HG_CONVERT_REPLACE_REGEX: LazyLock<Regex> = LazyLock::new(|| {
     Regex::new("(\\*\\*/|\\*\\*|\\?|\\*|[^*?]+)").unwrap()
 });
 
-fn root_prefix(file_path: &Path) -> String {
+/// The repository root as the text that the paths of its entries begin with.
+fn root_text(file_path: &Path) -> String {
     #[cfg(not(windows))]
     let path = file_path.to_string_lossy().to_string();
 
     #[cfg(windows)]
     let path = file_path.to_string_lossy().to_string().replace("\\", "/");
 
-    regex::escape(path.trim_end_matches('/'))
+    path.trim_end_matches('/').to_string()
 }
 
-/// A glob of .hgignore is not rooted: it may match at any depth below the repository root,
-/// but always whole path components (`*.o` is not a prefix match).
-fn convert_hgignore_glob(glob: &str, file_path: &Path) -> Result<Regex, Error> {
+/// A glob of .hgignore is not rooted (unless it is a `rootglob`): it may match at any depth
+/// below the repository root, but always whole path components (`*.o` is not a prefix match).
+fn convert_hgignore_glob(glob: &str, rooted: bool) -> Result<Regex, Error> {
     let pattern = HG_CONVERT_REPLACE_REGEX
         .replace_all(glob.trim().trim_end_matches('/'), |c: &Captures| match c.index(0) {
             "**/" => "(.*/)?".to_string(),
@@ -225,15 +263,18 @@ fn convert_hgignore_glob(glob: &str, file_path: &Path) -> Result<Regex, Error> {
         })
         .to_string();
 
-    Regex::new(&format!("^{}/(.*/)?{}$", root_prefix(file_path), pattern))
+    match rooted {
+        true => Regex::new(&format!("^{}$", pattern)),
+        false => Regex::new(&format!("^(.*/)?{}$", pattern)),
+    }
 }
 
 /// A regular expression of .hgignore is searched for in the path relative to the
-/// repository root (`^` anchors it at the root).
-fn convert_hgignore_regexp(regexp: &str, file_path: &Path) -> Result<Regex, Error> {
-    let pattern = match regexp.strip_prefix('^') {
-        Some(anchored) => format!("^{}/(?:{})", root_prefix(file_path), anchored),
-        None => format!("^{}/.*(?:{})", root_prefix(file_path), regexp),
+/// repository root (`^` anchors it at the root, wherever in the expression it is written).
+fn convert_hgignore_regexp(regexp: &str) -> Result<Regex, Error> {
+    let pattern = match regexp.starts_with('^') {
+        true => format!("^(?:{})", regexp),
+        false => format!("^.*(?:{})", regexp),
     };
 
     Regex::new(&pattern)
